@@ -27,7 +27,8 @@ func LogAdd(a, b float64) float64 {
     // swap
     a, b = b, a
   }
-  if math.IsInf(a, -1) {
+  if math.IsInf(a, 0) {
+    // a = -Inf and b >= a, or a = b = Inf
     return b
   }
   return b + math.Log1p(math.Exp(a-b))
